@@ -34,6 +34,12 @@ Theorem C01_embedding_gs_is_grad (pad : option nat) (c : nat -> K) (T V D : nat)
   sumn V (fun v => sumn D (fun d => kmul (emb_gs K k0 kadd pad T g idx v d) (dW v d)))
   = pair2 K k0 kadd kmul T D g (fun t d => ksub (emb_fwd K pad c (fun v d => kadd (W v d) (dW v d)) idx t d) (emb_fwd K pad c W idx t d)).
 Proof. exact (embedding_gs_is_grad K k0 k1 kadd kmul ksub kopp Kring pad c T V D W dW idx g). Qed.
+(* nn.EmbeddingBag, modes sum / mean (s = 1 or 1 / number of non-padding entries), one bag; entries holding the padding index are excluded *)
+Theorem C01_embedding_bag_gs_is_grad (pad : option nat) (s : K) (T V D : nat) (W dW : nat -> nat -> K) (idx : nat -> nat) (gb : nat -> K) :
+  (forall t, t < T -> idx t < V) ->
+  sumn V (fun v => sumn D (fun d => kmul (bag_gs K k0 kadd kmul pad s T gb idx v d) (dW v d)))
+  = sumn D (fun d => kmul (gb d) (ksub (bag_fwd K k0 kadd kmul pad s T (fun v d => kadd (W v d) (dW v d)) idx d) (bag_fwd K k0 kadd kmul pad s T W idx d))).
+Proof. exact (embedding_bag_gs_is_grad K k0 k1 kadd kmul ksub kopp Kring pad s T V D W dW idx gb). Qed.
 (* affine part of GroupNorm / LayerNorm / InstanceNorm *)
 Theorem C01_norm_affine_gs_is_grad (P C : nat) (w dw b db : nat -> K) (xhat g : nat -> nat -> K) :
   kadd (sumn C (fun c => kmul (norm_gs_w K k0 kadd kmul P g xhat c) (dw c))) (sumn C (fun c => kmul (norm_gs_b K k0 kadd P g c) (db c)))
@@ -76,7 +82,7 @@ Theorem C01_same_padding_3d (d0 d1 d2 k0 k1 k2 : Z) :
 Proof. unfold unfold3d_pad_D_left, unfold3d_pad_H_left, unfold3d_pad_W_left, unfold3d_pad_D_right, unfold3d_pad_H_right, unfold3d_pad_W_right. repeat split; lia. Qed.
 (* the registered samplers use exactly these formulas (table generated from the sources) *)
 Theorem C01_sampler_table_covers :
-  forallb (fun r => match snd r with FLinW | FLinB | FConvW | FConvB | FEmbScatterPadZero | FNormW | FNormB | FSeqBiasLast => true end) sampler_table = true /\ Nat.leb 1 (length sampler_table) = true.
+  forallb (fun r => match snd r with FLinW | FLinB | FConvW | FConvB | FEmbScatterPadZero | FEmbBagSumMean | FNormW | FNormB | FSeqBiasLast => true end) sampler_table = true /\ Nat.leb 1 (length sampler_table) = true.
 Proof. split; reflexivity. Qed.
 
 (* non-vacuity: the Linear identity instantiated on Z with concrete tensors (2 positions, 2 inputs, 1 output) *)
@@ -89,6 +95,7 @@ Print Assumptions C01_adjoint_unique.
 Print Assumptions C01_linear_gs_is_grad.
 Print Assumptions C01_conv_gs_is_grad.
 Print Assumptions C01_embedding_gs_is_grad.
+Print Assumptions C01_embedding_bag_gs_is_grad.
 Print Assumptions C01_norm_affine_gs_is_grad.
 Print Assumptions C01_uses_accumulate.
 Print Assumptions C01_mean_rescale.
